@@ -22,11 +22,12 @@ type SpecDB struct {
 	inlineExtern map[string]bool
 	chanInv      map[string][]*Clause // "pkg.Type.field" -> invariants over v
 	files        []string
+	ghosts       map[string]*Ghost
 }
 
 func newSpecDB() *SpecDB {
 	return &SpecDB{pkgs: map[string]*PkgContracts{}, byName: map[string]*FuncContract{}, eff: &effectsCache{done: map[*ssa.Function]*EffectSet{}},
-		inlineExtern: map[string]bool{}, chanInv: map[string][]*Clause{}}
+		inlineExtern: map[string]bool{}, chanInv: map[string][]*Clause{}, ghosts: map[string]*Ghost{}}
 }
 
 func readSpecLines(path string) ([]string, error) {
@@ -102,7 +103,39 @@ func (db *SpecDB) loadExterns(dir string) error {
 	return nil
 }
 
+func (db *SpecDB) ghost(name string) *Ghost {
+	return db.ghosts[name]
+}
+
+func (g *Ghost) heapName() string {
+	if g.IsMap {
+		return quote("GH:" + g.Name)
+	}
+	return quote("GG:" + g.Name)
+}
+
+func (g *Ghost) sort() Sort {
+	s := SInt
+	if g.Elem == "bool" {
+		s = SBool
+	}
+	if g.IsMap {
+		return arraySort(SInt, s)
+	}
+	return s
+}
+
 func (db *SpecDB) add(key string, pc *PkgContracts) {
+	for _, g := range pc.Ghosts {
+		db.ghosts[g.Name] = g
+	}
+	for k, v := range pc.ChanInvs {
+		full := k
+		if key != "" {
+			full = key + "." + k
+		}
+		db.chanInv[full] = append(db.chanInv[full], v...)
+	}
 	if old, ok := db.pkgs[key]; ok {
 		for k, v := range pc.Funcs {
 			old.Funcs[k] = v
@@ -121,7 +154,8 @@ func (db *SpecDB) add(key string, pc *PkgContracts) {
 		full := name
 		if key != "" && !fc.IsIface && !fc.IsExtern {
 			full = key + "." + name
-		} else if key != "" && (fc.IsIface || fc.IsExtern) && !strings.Contains(strings.TrimPrefix(name, "(*"), ".") {
+		} else if key != "" && (fc.IsIface || fc.IsExtern) && strings.Count(strings.TrimPrefix(name, "(*"), ".") <= 1 {
+			// "Type.field" (function-typed field) or "Iface.Method" of this package
 			full = key + "." + name
 		}
 		db.byName[full] = fc
